@@ -24,6 +24,11 @@ Script format (also the replay format), one list per operation:
    ["begin", name] ["stmt", name] ["commit", name] ["auto", name] ["admin_cmd", name]
    ["sig", "int"|"term"] ["shutdown", admin_name] ["close", name, "clean"|"drop"] ["panic", name]
    ["cancel"] ["wait_timer"]
+   ["ext_batch", name]      Parse/Bind/Execute WITHOUT Sync (buffered by pgcat; outside a transaction the client stays
+                            in the outer loop = model Idle, no model event; inside one it stays InTxn/SessionHeld)
+   ["ext_sync", name]       the Sync of that batch (model: Stmt inside a transaction, else TxnStart;TxnEnd)
+   ["ext_sync_dead", name]  the Sync sent by a client that has been told to go: no answer, and the batch must never
+                            reach a server (no model event)
 """
 import hashlib, json, os, signal, socket, struct, subprocess, sys, threading, time
 from concurrent.futures import ThreadPoolExecutor
@@ -44,11 +49,23 @@ PGCAT_BIN = os.path.join(PGCAT_TARGET, "debug", "pgcat")
 def compile_script(ops):
     """-> (list of Gallina sop strings, [(first, last+1) sop range of each op], {client name: model index})"""
     sops, ranges, idx, kinds = [], [], {}, {}
+    intxn = set()
     nxt = 0
+    ext_as_txn = bool(os.environ.get("C17_SELFTEST_EXT"))   # self-test: a WRONG mapping (buffered batch = transaction)
     for op in ops:
         a = len(sops)
         k = op[0]
-        if k == "connect":
+        if k == "ext_batch":
+            if ext_as_txn and op[1] not in intxn:
+                sops.append("SEv (TxnStart %d)" % idx[op[1]]); intxn.add(op[1])
+        elif k == "ext_sync":
+            if op[1] in intxn:
+                sops.append("SEv (Stmt %d)" % idx[op[1]])
+            else:
+                sops += ["SEv (TxnStart %d)" % idx[op[1]], "SEv (TxnEnd %d)" % idx[op[1]]]
+        elif k == "ext_sync_dead":
+            pass
+        elif k == "connect":
             _, name, kind, mode, ok = op
             idx[name] = nxt; kinds[name] = kind; nxt += 1
             sops.append("SEv (Accept %s %s)" % ("Admin" if kind == "admin" else "Normal", "SessMode" if mode == "sess" else "TxnMode"))
@@ -66,11 +83,11 @@ def compile_script(ops):
         elif k == "auth_late":
             sops.append("SEv (AuthDone %d true)" % idx[op[1]])
         elif k == "begin":
-            sops += ["SEv (TxnStart %d)" % idx[op[1]], "SEv (Stmt %d)" % idx[op[1]]]
+            sops += ["SEv (TxnStart %d)" % idx[op[1]], "SEv (Stmt %d)" % idx[op[1]]]; intxn.add(op[1])
         elif k in ("stmt", "admin_cmd"):
             sops.append("SEv (Stmt %d)" % idx[op[1]])
         elif k == "commit":
-            sops.append("SEv (TxnEnd %d)" % idx[op[1]])
+            sops.append("SEv (TxnEnd %d)" % idx[op[1]]); intxn.discard(op[1])
         elif k == "auto":
             sops += ["SEv (TxnStart %d)" % idx[op[1]], "SEv (TxnEnd %d)" % idx[op[1]]]
         elif k == "sig":
@@ -115,6 +132,8 @@ def parse_trace(val, ops):
     def nm(x):
         return x[1] if isinstance(x, tuple) and len(x) == 2 and x[0] == "#" else x
     for (a, b) in ranges:
+        if b == 0:          # no model event yet: the initial state
+            out.append({"total": 0, "exited": None, "wedged": False, "log": []}); continue
         total, exited, wedged, log = tr[b - 1]
         ex = None if exited is None else nm(exited[1])
         lg = []
@@ -182,6 +201,24 @@ def core_scripts():
     S.append(("close-before-int", [c("c0"), c("c1"), ["close", "c0", "clean"], ["sig", "int"]]))
     S.append(("term-with-everything", [c("c0"), c("s0", N, "sess"), c("a", A), ["begin", "c0"], ["auto", "s0"], ["sig", "term"]]))
     S.append(("shutdown-then-timer", [c("s0", N, "sess"), c("a", A), ["auto", "s0"], ["shutdown", "a"], ["admin_cmd", "a"], ["wait_timer"]]))
+    # a client between Parse/Bind/Execute and Sync when the signal lands.  Outside a transaction it holds no server
+    # and sits in the outer loop (= Idle): told to go at once, its Sync never reaches a server, the process does not
+    # wait for the timeout.  Inside a transaction / session-held it finishes.
+    S.append(("extbatch-outside+int", [c("c0"), ["ext_batch", "c0"], ["sig", "int"]]))
+    S.append(("extbatch-outside+int+dead-sync", [c("k"), ["begin", "k"], c("c0"), ["ext_batch", "c0"], ["sig", "int"], ["ext_sync_dead", "c0"],
+                                                 ["stmt", "k"], ["commit", "k"]]))
+    S.append(("extbatch-after-txn+int", [c("c0"), ["begin", "c0"], ["commit", "c0"], ["auto", "c0"], ["ext_batch", "c0"], ["sig", "int"]]))
+    S.append(("extbatch-after-ext-txn+shutdown", [c("c0"), c("a", A), ["ext_batch", "c0"], ["ext_sync", "c0"], ["ext_batch", "c0"], ["shutdown", "a"]]))
+    S.append(("extbatch-sessidle+int", [c("s0", N, "sess"), ["ext_batch", "s0"], ["sig", "int"]]))
+    S.append(("extbatch-sessheld+int", [c("s0", N, "sess"), ["auto", "s0"], ["ext_batch", "s0"], ["sig", "int"], ["ext_sync", "s0"], ["stmt", "s0"],
+                                        ["close", "s0", "clean"]]))
+    S.append(("extbatch-intxn+int", [c("c0"), ["begin", "c0"], ["ext_batch", "c0"], ["sig", "int"], ["ext_sync", "c0"], ["stmt", "c0"], ["commit", "c0"]]))
+    S.append(("extbatch-intxn+int+second-batch", [c("c0"), ["begin", "c0"], ["sig", "int"], ["ext_batch", "c0"], ["ext_sync", "c0"], ["commit", "c0"]]))
+    S.append(("extbatch-outside+term", [c("c0"), ["ext_batch", "c0"], ["sig", "term"]]))
+    S.append(("extbatch-outside+sessheld+int+timer", [c("c0"), c("s0", N, "sess"), ["auto", "s0"], ["ext_batch", "c0"], ["sig", "int"], ["ext_sync_dead", "c0"],
+                                                      ["wait_timer"]]))
+    S.append(("extbatch-mixed", [c("c0"), c("c1"), c("c2"), ["begin", "c2"], ["ext_batch", "c0"], ["ext_batch", "c2"], ["auto", "c1"], ["ext_batch", "c1"],
+                                 ["sig", "int"], ["ext_sync_dead", "c1"], ["ext_sync", "c2"], ["ext_sync_dead", "c0"], ["commit", "c2"]]))
     return S
 
 
@@ -190,6 +227,19 @@ def random_script(rng):
     authority: a script it cannot execute is reported as generator drift, not as a violation)."""
     ops, st = [], {}            # st: name -> [kind, mode, phase]
     nn = [0]
+    bt = set()                  # clients with a buffered Parse/Bind/Execute batch (no Sync yet)
+
+    def flush(n):
+        if n in bt:
+            ops.append(["ext_sync", n]); bt.discard(n)
+
+    def maybe_batch(n, p):
+        if rng.random() < p:
+            ops.append(["ext_batch", n]); bt.add(n)
+            if rng.random() < 0.2:
+                flush(n)
+                if st[n][1] == "sess" and st[n][2] == "idle":
+                    st[n][2] = "held"
 
     def fresh(p):
         nn[0] += 1
@@ -213,16 +263,22 @@ def random_script(rng):
                 ops.append(["begin", n]); st[n][2] = "intxn"
                 for _ in range(rng.randint(0, 2)):
                     ops.append(["stmt", n])
+                maybe_batch(n, 0.3)
             elif r < 0.65:
                 ops.append(["auto", n])
+                maybe_batch(n, 0.4)
             elif r < 0.72:
                 ops.append(["panic", n]); st[n][2] = "gone"
             elif r < 0.8:
                 ops.append(["close", n, rng.choice(["clean", "drop"])]); st[n][2] = "gone"
+            else:
+                maybe_batch(n, 0.5)
     if rng.random() < 0.35:
         n = connect("normal", "sess", False)
         if st[n][2] == "idle" and rng.random() < 0.7:
             ops.append(["auto", n]); st[n][2] = "held"
+        if st[n][2] in ("idle", "held"):
+            maybe_batch(n, 0.35)
     admins = []
     if rng.random() < 0.5:
         a = connect("admin", "txn", False)
@@ -241,9 +297,12 @@ def random_script(rng):
         ops.append(["shutdown", admins[0]])
     else:
         ops.append(["sig", "int"])
+    deadb = []                  # told to go while a batch was buffered: their Sync must go nowhere
     for n, v in st.items():
         if v[0] == "normal" and v[2] == "idle":
             v[2] = "gone"
+            if n in bt:
+                bt.discard(n); deadb.append(n)
 
     def alive():
         return [n for n, v in st.items() if v[0] == "normal" and v[2] in ("intxn", "held")]
@@ -251,14 +310,27 @@ def random_script(rng):
     for _ in range(rng.randint(1, 7)):
         if not alive():
             break                       # the process is (about to be) gone
-        acts = ["stmt", "stmt", "finish", "newnormal", "newadmin", "cancel", "int2", "admincmd"]
+        acts = ["stmt", "stmt", "finish", "newnormal", "newadmin", "cancel", "int2", "admincmd", "batch"]
         if late and st[late][2] == "late":
             acts += ["late", "late"]
+        if deadb:
+            acts += ["deadsync", "deadsync"]
+        if any(n in bt for n in alive()):
+            acts += ["extsync", "extsync"]
         a = rng.choice(acts)
         if a == "stmt":
-            ops.append(["stmt", rng.choice(alive())])
-        elif a == "finish":
+            n = rng.choice(alive()); flush(n)
+            ops.append(["stmt", n])
+        elif a == "batch":
             n = rng.choice(alive())
+            if n not in bt:
+                ops.append(["ext_batch", n]); bt.add(n)
+        elif a == "extsync":
+            flush(rng.choice([n for n in alive() if n in bt]))
+        elif a == "deadsync":
+            ops.append(["ext_sync_dead", deadb.pop(rng.randrange(len(deadb)))])
+        elif a == "finish":
+            n = rng.choice(alive()); flush(n)
             if st[n][2] == "intxn":
                 ops.append(["commit", n]); st[n][2] = "held" if st[n][1] == "sess" else "gone"
             else:
@@ -286,6 +358,7 @@ def random_script(rng):
         elif r < 0.55:
             n = rng.choice(alive()); ops.append(["panic", n]); st[n][2] = "gone"
             for m in alive():
+                flush(m)
                 if st[m][2] == "intxn":
                     ops.append(["commit", m]); st[m][2] = "held" if st[m][1] == "sess" else "gone"
                 if st[m][2] == "held":
@@ -293,6 +366,7 @@ def random_script(rng):
             ops.append(["wait_timer"])
         else:
             for m in alive():
+                flush(m)
                 if st[m][2] == "intxn":
                     ops.append(["commit", m]); st[m][2] = "held" if st[m][1] == "sess" else "gone"
                 if st[m][2] == "held":
@@ -316,6 +390,12 @@ def abstract_class(ops, trace):
                 where[op[1]] = "intxn"
             elif k == "auto" and kinds.get(op[1]) == "ns":
                 where[op[1]] = "held"
+            elif k == "ext_batch":
+                where[op[1]] = where.get(op[1], "idle").replace("+batch", "") + "+batch"
+            elif k == "ext_sync":
+                where[op[1]] = where.get(op[1], "idle").replace("+batch", "")
+                if kinds.get(op[1]) == "ns" and where[op[1]] == "idle":
+                    where[op[1]] = "held"
             elif k in ("close", "panic"):
                 where[op[1]] = "gone:" + k
             elif k in ("sig", "shutdown"):
@@ -369,6 +449,7 @@ def wire_scenario(ops, trace):
     steps, openc = [], []
     real = any(op[0] == "shutdown" for op in ops)
     tagn = [0]
+    pending = {}            # client -> the statement of its buffered (not yet synced) batch
     nops = 0
     for k, op in enumerate(ops):
         nops = k + 1
@@ -391,6 +472,20 @@ def wire_scenario(ops, trace):
             sql = {"begin": "BEGIN", "commit": "COMMIT", "admin_cmd": "SHOW VERSION"}.get(kind, "SELECT %d /*q%d*/" % (tagn[0], tagn[0]))
             steps.append({"op": "send", "c": op[1], "msgs": [{"t": "Q", "sql": sql}]})
             steps.append({"op": "recv", "c": op[1], "until": "Z", "count": 1, "timeout_ms": 2000, "label": "stmt:" + sql})
+        elif kind == "ext_batch":
+            tagn[0] += 1
+            sql = "SELECT %d /*x%d*/" % (tagn[0], tagn[0])
+            pending[op[1]] = sql
+            steps.append({"op": "send", "c": op[1], "msgs": [{"t": "P", "name": "", "sql": sql, "types": []},
+                                                             {"t": "B", "portal": "", "name": "", "fmts": [], "params": [], "rfmts": []},
+                                                             {"t": "E", "portal": "", "max": 0}]})
+            steps.append({"op": "sleep", "ms": 25})       # pgcat has read and buffered the batch before the next operation
+        elif kind == "ext_sync":
+            steps.append({"op": "send", "c": op[1], "msgs": [{"t": "S"}]})
+            steps.append({"op": "recv", "c": op[1], "until": "Z", "count": 1, "timeout_ms": 2000, "label": "stmt:" + pending.pop(op[1], "?")})
+        elif kind == "ext_sync_dead":
+            steps.append({"op": "send", "c": op[1], "msgs": [{"t": "S"}]})
+            steps.append({"op": "recv", "c": op[1], "until": "Z", "count": 1, "timeout_ms": 250, "label": "dead:" + pending.pop(op[1], "?")})
         elif kind == "sig":
             steps.append({"op": "control", "sig": op[1]})
         elif kind == "shutdown":
@@ -487,6 +582,8 @@ def wire_observe(res, ops, nops):
                     per.setdefault(who, []).append("served")
                 elif not toks:
                     per.setdefault(who, []).append("noreply:" + str(e.get("outcome")))
+            if lab.startswith("dead:") and e.get("frames") and not all(f.get("t") == "E" for f in e["frames"]):
+                per.setdefault(who, []).append("answered-after-kick")
             for t in toks:
                 if t[0] == "admin_error":
                     if "kicked" not in per.setdefault(who, []):
@@ -504,8 +601,17 @@ def monitor_backend(events, ops, impl_tokens):
     probs = []
     by_sql = {}
     for e in events:
-        if e.get("ev") == "msg" and e.get("tag") == "Q":
+        if e.get("ev") == "msg" and e.get("tag") in ("Q", "E"):     # E: the Execute of an extended-protocol batch
             by_sql.setdefault(e["detail"].get("sql"), []).append(e)
+    # the batch of a client that was told to go before its Sync must never reach a server
+    for e in events:
+        if e.get("ev") == "recv" and (e.get("label") or "").startswith("dead:"):
+            sql = e["label"][5:]
+            seen = [x for x in events if x.get("ev") == "msg" and (x.get("detail") or {}).get("sql") == sql]
+            if seen:
+                probs.append("client %s: the batch %r it had buffered when it was told to go reached backend %s" % (e["who"], sql, seen[0]["who"]))
+            if any(f.get("t") in ("1", "2", "D", "C", "Z") for f in e.get("frames", [])):
+                probs.append("client %s: its Sync after the administrator-command error was answered: %s" % (e["who"], [f.get("t") for f in e["frames"]]))
     recvs = {}
     for e in events:
         if e.get("ev") == "recv" and (e.get("label") or "").startswith("stmt:"):
@@ -792,6 +898,7 @@ def run_binary_script(mockd, name, ops, trace):
         B.finish()
         return {"error": B.err}
     cl, per, events, optotal, marks = {}, {}, [], {}, {}
+    dead, pending = {}, {}      # kicked clients whose socket we keep; client -> statement of its buffered batch
     noexit_sig = None
     fatal_ok = True
     tagn = 0
@@ -819,7 +926,7 @@ def run_binary_script(mockd, name, ops, trace):
                 per[n].append("kicked")
             f2, out2 = c.read("", 0.3)
             events.append({"who": n, "ev": "after_kick", "frames": f2, "outcome": out2})
-            c.close(); del cl[n]
+            dead[n] = c; del cl[n]
     try:
         for k, op in enumerate(ops):
             nops = k + 1
@@ -873,6 +980,42 @@ def run_binary_script(mockd, name, ops, trace):
                     per.setdefault(op[1], []).append("error:" + errs[0]["fields"].get("M", ""))
                 else:
                     per.setdefault(op[1], []).append("noreply:" + out)
+            elif kind == "ext_batch":
+                tagn += 1
+                sql = "SELECT %d /*x%d*/" % (tagn, tagn)
+                pending[op[1]] = sql
+                c = cl.get(op[1])
+                if c:
+                    c.send(PgClient.msg(b"P", b"\0" + sql.encode() + b"\0" + struct.pack(">h", 0)) +
+                           PgClient.msg(b"B", b"\0\0" + struct.pack(">hhh", 0, 0, 0)) +
+                           PgClient.msg(b"E", b"\0" + struct.pack(">i", 0)))
+                events.append({"who": op[1], "ev": "sent", "msgs": [{"t": "P", "sql": sql}, {"t": "B"}, {"t": "E"}]})
+            elif kind == "ext_sync":
+                c = cl.get(op[1])
+                sql = pending.pop(op[1], "?")
+                if c:
+                    c.send(PgClient.msg(b"S"))
+                frames, out = c.read("Z", 3.0) if c else ([], "closed")
+                note_frames(op[1], "stmt:" + sql, frames, out)
+                errs = [f for f in frames if f["t"] == "E"]
+                if any(f["t"] == "Z" for f in frames) and not errs:
+                    per.setdefault(op[1], []).append("served")
+                elif admin_err(frames):
+                    per.setdefault(op[1], []).append("kicked")
+                elif errs:
+                    per.setdefault(op[1], []).append("error:" + errs[0]["fields"].get("M", ""))
+                else:
+                    per.setdefault(op[1], []).append("noreply:" + out)
+            elif kind == "ext_sync_dead":
+                c = dead.get(op[1]) or cl.get(op[1])
+                sql = pending.pop(op[1], "?")
+                frames, out = [], "closed"
+                if c:
+                    c.send(PgClient.msg(b"S"))
+                    frames, out = c.read("Z", 0.3)
+                note_frames(op[1], "dead:" + sql, frames, out)
+                if frames and not all(f["t"] == "E" for f in frames):
+                    per.setdefault(op[1], []).append("answered-after-kick")
             elif kind == "sig":
                 os.kill(B.proc.pid, signal.SIGINT if op[1] == "int" else signal.SIGTERM)
             elif kind == "shutdown":
@@ -947,7 +1090,7 @@ def run_binary_script(mockd, name, ops, trace):
                 after["#new_connection"] = "refused"
         alive_end = B.proc.poll() is None
     finally:
-        for c in cl.values():
+        for c in list(cl.values()) + list(dead.values()):
             c.close()
         bev = B.finish()
     return {"per": per, "optotal": optotal, "marks": marks, "fatal_ok": fatal_ok, "nops": nops, "events": events + bev,
